@@ -42,6 +42,17 @@ Theorem l0_run_and_cover : forall st, RInv st ->
 Proof. exact Proofs.l0_run_and_cover. Qed.
 Print Assumptions l0_run_and_cover.
 
+(** (iv): L1 contiguous above the newest snapshot; all levels sorted, non-overlapping, within
+    1..pos, max(L) <= max(L-1).  PARTIAL: contiguity above the floor is not proved for levels >= 2
+    (see Store/Proofs.v); (i)-(iii) and (v) do not depend on it. *)
+Theorem retention_levels_partial : forall st, RInv st ->
+  chainP (snapS st) 0 (st_rep st 1) /\
+  forall L, 1 <= L <= 8 ->
+    incrP 0 (st_rep st L) /\ (forall f, In f (st_rep st L) -> s_max f <= st_pos st) /\
+    lmax (st_rep st L) <= lmax (st_rep st (L - 1)).
+Proof. exact Proofs.retention_levels_partial. Qed.
+Print Assumptions retention_levels_partial.
+
 (** (i) for any state satisfying the invariant *)
 Theorem rinv_latest_restorable : forall st, RInv st -> 0 < st_pos st ->
   exists p, calc_restore_plan (listing_of (st_rep st)) 0 0 = POk p /\ chain_end p = st_pos st.
